@@ -332,8 +332,28 @@ fn sync_writer(req: &Value) -> R {
             Ok(json!({"dropped":true,"written":total,"calls":calls}))
         }
         _ => {
+            pause_before_commit(req);
+            let cw0 = wall_ms();
             let sri = w.commit().map_err(|e| staged(err_json(&e), "commit"))?;
-            Ok(json!({"sri":sri.to_string(),"written":total,"calls":calls}))
+            Ok(json!({"sri":sri.to_string(),"written":total,"calls":calls,"commit_w0":cw0.to_string()}))
+        }
+    }
+}
+
+/// Optional delay between the last chunk and commit(), so that "time of the commit" and "time the writer was
+/// opened" can be told apart by the harness.
+pub fn pause_before_commit(req: &Value) {
+    if let Some(ms) = req.get("pause_before_commit_ms").and_then(|x| x.as_u64()) {
+        std::thread::sleep(std::time::Duration::from_millis(ms));
+    }
+    // operations (through the sync API, or harness helpers) that happen while the writer is still open
+    if let Some(ops) = req.get("before_commit").and_then(|x| x.as_array()) {
+        for q in ops {
+            if let Some(r) = harness_op(q) {
+                let _ = r;
+            } else {
+                let _ = std::panic::catch_unwind(std::panic::AssertUnwindSafe(|| exec_sync(q)));
+            }
         }
     }
 }
@@ -567,6 +587,11 @@ fn harness_op(req: &Value) -> Option<R> {
                 req.get("ms").and_then(|x| x.as_u64()).unwrap_or(1),
             ));
             Some(Ok(json!({})))
+        }
+        "rmtree" => {
+            let p = s(req, "path");
+            let r = if Path::new(p).is_dir() { std::fs::remove_dir_all(p) } else { std::fs::remove_file(p) };
+            Some(Ok(json!({"removed": r.is_ok()})))
         }
         "ping" => Some(Ok(json!({"pong":true,"flavour":flavour(),"pid":std::process::id()}))),
         _ => None,
